@@ -63,7 +63,7 @@ theorem evaluateRoute_status (e r) : Rel (statusPre A) (evaluateRoute e r) := by
   status_walk []
 
 theorem stageNext_status (k idx e o acc) : Rel (statusPre A) (stageNext k idx e o acc) := by
-  unfold stageNext
+  unfold stageNext stageTarget
   status_walk [evaluateRoute_status _ _ ]
 
 theorem fireTransition_status (k idx ec acc e) (hF : A .failed = true) : Rel (statusPre A) (fireTransition E k idx ec acc e) := by
@@ -79,7 +79,7 @@ theorem makeTaskContext_status (k idx r) : Rel (statusPre A) (makeTaskContext k 
   status_walk []
 
 theorem ensureRecord_status (k s r ev) (hF : A .failed = true) : Rel (statusPre A) (ensureRecord E k s r ev) := by
-  unfold ensureRecord
+  unfold ensureRecord firstRecord recordFromStaged
   status_walk [addTaskState_status E _ _ _ hF]
 
 theorem noteEvent_status (k s ev) : Rel (statusPre A) (noteEvent k s ev) := by
